@@ -1,9 +1,60 @@
-"""angle sweeps for the 2-D theta cone, ice-cream cone and beta (filled in with the R development)."""
+"""angle sweeps for the 2-D theta cone, the ice-cream cone and beta against the closed forms proved in
+Theta2D.v / IceCream.v for the regenerated constructors (float tolerance 1e-12)."""
+import math
+import numpy as np
 
 
 def run(ctx):
-    return [], 0, []
+    from vopy.utils import get_2d_w
+    from vopy.order import ConeOrder3DIceCream, ConeTheta2DOrder
+    from vopy.ordering_cone import ConeTheta2D
+    viol, samples, n = [], [], 0
+    degs = list(range(1, 180)) if not ctx.quick else [1, 5, 17, 30, 44, 45, 46, 60, 89, 91, 100, 120, 135, 150, 179]
+    degs += [ctx.rng.uniform(0.5, 179.5) for _ in range(5 if ctx.quick else 50)]
+    for deg in degs:
+        if abs(deg - 90) < 1e-9:
+            continue
+        n += 1
+        W = get_2d_w(deg)
+        r = math.radians(deg); a = math.pi / 4 - r / 2; b = math.pi / 4 + r / 2
+        want = np.array([[-math.sin(a), math.cos(a)], [math.sin(b), -math.cos(b)]])
+        beta = ConeTheta2D.beta.fget(type("o", (), {"cone_degree": deg})())
+        wb = 1 / math.sin(r) if deg < 90 else 1.0
+        if not np.allclose(W, want, rtol=0, atol=1e-12):
+            viol.append({"signature": "theta2d-matrix", "message": f"get_2d_w({deg}) = {W.tolist()} but the rows (-sin a, cos a), (sin b, -cos b) are {want.tolist()}", "replay": {"angle": deg, "what": "theta2d"}})
+        if abs(beta - wb) > 1e-12 * max(1, wb):
+            viol.append({"signature": "theta-beta", "message": f"ConeTheta2D({deg}).beta = {beta}, closed form {wb}", "replay": {"angle": deg, "what": "beta"}})
+        # directions within theta/2 of the diagonal are inside, others are not
+        for phi in (math.pi / 4, a + 1e-6, b - 1e-6, a - 1e-3, b + 1e-3, math.pi / 4 + math.pi):
+            x = np.array([math.cos(phi), math.sin(phi)])
+            inside = bool((W @ x >= 0).all())
+            want_in = a <= phi <= b
+            if inside != want_in:
+                viol.append({"signature": "theta2d-directions", "message": f"theta={deg}: direction at polar angle {phi} inside={inside}, expected {want_in}", "replay": {"angle": deg, "what": "dir"}})
+    samples.append({"angle": degs[0], "what": "theta2d"})
+    # 90 degrees: the source formula uses tan(pi/2) in floating point; the cone must still be the orthant
+    W90 = get_2d_w(90)
+    n += 1
+    if not np.allclose(np.abs(W90), np.array([[0, 1], [1, 0]]), atol=1e-12) or not ((W90 @ np.array([1.0, 1.0])) > 0).all():
+        viol.append({"signature": "theta2d-90", "message": f"get_2d_w(90) = {W90.tolist()} is not the orthant", "replay": {"angle": 90, "what": "theta2d"}})
+    # ice-cream cones: unit facet normals, each at angle with sin = sin(theta) to the rotated axis (1,1,1)/sqrt 3?  axis = r e_z
+    s = 1 / math.sqrt(2)
+    C = np.array([[0, 0, s], [0, 0, s], [-s, -s, 0]])
+    rmat = np.eye(3) + C * math.sin(math.pi / 4) + (C @ C) * (1 - math.cos(math.pi / 4))
+    axis = rmat @ np.array([0.0, 0.0, 1.0])
+    for K in ([3, 4, 6, 12] if ctx.quick else range(3, 13)):
+        for th in ([10, 30, 45, 80] if ctx.quick else range(5, 90, 5)):
+            n += 1
+            W = ConeOrder3DIceCream(th, K).ordering_cone.W
+            ok = (W.shape == (K, 3) and np.allclose(np.linalg.norm(W, axis=1), 1, atol=1e-12)
+                  and np.allclose(W @ axis, math.sin(math.radians(th)), atol=1e-12))
+            if not ok:
+                viol.append({"signature": "icecream-tangent", "message": f"ConeOrder3DIceCream({th}, {K}): rows not unit or not at sin(theta) to the axis: norms {np.linalg.norm(W, axis=1).tolist()}, n.axis {(W @ axis).tolist()}", "replay": {"angle": th, "K": K, "what": "ice"}})
+    return viol, n, samples
 
 
 def replay(ctx, r):
-    return False, "no angle replay"
+    ctx.quick = False
+    v, n, _ = run(ctx)
+    v = [x for x in v if x["replay"].get("what") == r.get("what")]
+    return bool(v), (v[0]["message"] if v else "angle sweeps agree with the closed forms")
